@@ -1,6 +1,7 @@
 """C20 — terminated bodies stay terminated.  Decides: (R1) every terminal return
 of the chunk reader leaves the shared state in a variant whose row returns
-Ready(None) without data; (R2) the one-shot body's payload is taken; (R3) the
+Ready(None) without data, and (R1.writer) no producer-side entry point (flush, Drop,
+abort) turns a terminated shared state back into a live one; (R2) the one-shot body's payload is taken; (R3) the
 length-checking stream yields only None/Err after a terminal row when its inner
 stream stays finished; (R4) the multipart stream's object invariant
 (`h <= n and (cur is Some => p = 1 and h < n)`; the position (h, p) is read from the
